@@ -61,6 +61,8 @@ class VEvent:
 		self.entered = 0        # times the worker entered wait()
 		self.wait_log = []      # (virtual time at entry, timeout_ns, latency_ns)
 		self.keep_log = True
+		self.park_at_end = False  # free-running mode: after stop_after waits, block until set() (the real stop() must end the run)
+		self.parked = False
 
 	def wait(self, timeout = None):
 		t_ns = int(round((timeout or 0) * 1e9))
@@ -77,6 +79,14 @@ class VEvent:
 				if self.flag:
 					return True
 				if self.stop_after is not None and self.waits >= self.stop_after:
+					if not self.park_at_end:
+						return True
+					# the run is over for the harness: wait here until the real stop() sets the event
+					self.parked = True
+					self.cond.notify_all()
+					while not self.flag:
+						self.cond.wait(0.2)
+					self.parked = False
 					return True
 			lat = self.latency(self.waits)
 			if self.keep_log:
